@@ -16,13 +16,17 @@ PROP = {
     "rule": "one evaluation = one completely sent response checked at its seed's finish instant; non-trivial = accepted by the discard policy and non-empty; distinct = distinct (size class, kind, encoding, framing, status, record type response|revisit, lying content type, retry path) tuples; C02/rejected counts responses the policy rejects, distinct by (reason, status, discard set)",
     "assumptions": ["origins on 127.0.0.2+ (loopback only)", "stage once-guards are reset between lifecycles by overlay-only VerifReset hooks", "one rapid case = one pipeline lifecycle (start, seeds, quiescence, stop)"],
     "units": [
-        {"name": "c02", "pkg": "./internal/pkg/verifnet", "run": "^TestVerif_C02_", "kind": "rapid", "toolchain": "go124",
+        {"name": "c02", "pkg": "./internal/pkg/verifnet", "run": "^TestVerif_C02_(Finish|Probe)", "kind": "rapid", "toolchain": "go124",
          "facets": ["C02/finish", "C02/rejected"], "checks": (22, 110), "shards": (2, 8), "shrinktime": (25, 90), "timeout": (600, 2400), "verbose": True},
         # one lifecycle per process under the race detector (reports whose accessing function is one of the harness's own
         # reset hooks are ignored: they run while goroutines of the stopped pipeline wind down): the discard policy, the feedback channels and the per-item bookkeeping are
         # shared between the fetch goroutines of a seed and the WARC recorder's goroutines (a data race report is a violation)
         {"name": "c02race", "pkg": "./internal/pkg/verifnet", "run": "^TestVerif_C02_Finish$", "kind": "rapid", "toolchain": "go124",
          "facets": ["C02/finish"], "race": (True, True), "race_ignore": r"\.Verif[A-Z]\w*\(|/verifnet\.|/veriflib\.", "env": {"VERIF_N_C02_ONE_LIFECYCLE": (1, 1)}, "checks": (1, 1), "shards": (6, 16), "shrinktime": (5, 30), "timeout": (900, 2400), "verbose": True},
+        # a stop request while captured responses wait for the (held) WARC writers: nobody may be reported finished before
+        # its records are written
+        {"name": "c02stop", "pkg": "./internal/pkg/verifnet", "run": "^TestVerif_C02_StopWriter$", "kind": "rapid", "toolchain": "go124",
+         "facets": ["C02/stop-writer"], "checks": (6, 40), "shards": (3, 8), "shrinktime": (20, 60), "timeout": (600, 2400), "verbose": True},
         {"name": "c02kf1", "pkg": "./internal/pkg/verifnet", "run": "^TestVerifKF_C02_FailedResponseNotAwaited$", "kind": "kf", "toolchain": "go124",
          "finding": "C02-failed-response-not-awaited", "facets": [], "checks": (1, 1), "shards": (1, 1), "verbose": True},
     ],
